@@ -8,6 +8,9 @@
 (*   lt      lt[j] = (iter[j] < iter[j+1]) as answered by DNA.__lt__       *)
 (*   endnone spec.next_dna(last) is None                                   *)
 (*   sweep   proposals of pg.geno.Sweeping ; hassweep                      *)
+(*   recov   <<r, pending, num_proposals after recover, proposals after a  *)
+(*           fresh Sweeping recovered a history of r proposals whose last  *)
+(*           `pending` rewards are None>>                                  *)
 (*   nexts   <<tree, next tree | <<"x",0,<<>>>> >> from freshly built DNAs *)
 (*   resume  <<position, list(iter[position].iter_dna())>> or <<0, <<>>>>  *)
 (*   probes  <<label, tree as built, validate ok, bind ok>>                *)
@@ -48,6 +51,11 @@ IterLaws(i, o, vt) ==
   \o SeqIf(~o.endnone, Fail(i, "no_successor_at_end", it[n]))
   \o SeqIf(badnext # {}, Fail(i, "next_of_rebuilt_dna", o.nexts[Min(badnext \cup {Len(o.nexts)})]))
   \o SeqIf(o.hassweep /\ o.sweep # it, Fail(i, "sweeping_same_sequence", <<Len(o.sweep), n>>))
+  \* recover(history) then continue: whatever number of trailing proposals is still pending (reward None), the
+  \* recovered sweeper has made Len(history) proposals and goes on with the enumeration suffix
+  \o LET badrec == { j \in 1..Len(o.recov) :
+                       o.recov[j][3] # o.recov[j][1] \/ o.recov[j][4] # SubSeq(it, o.recov[j][1] + 1, n) } IN
+     SeqIf(badrec # {}, Fail(i, "sweeping_after_recover", o.recov[Min(badrec \cup {Len(o.recov)})]))
   \o SeqIf(o.resume[1] > 0 /\ o.resume[2] # SubSeq(it, o.resume[1] + 1, n), Fail(i, "iter_resumes_after", o.resume[1]))
 
 \* Why was an invalid tree accepted?  "neg": it is a valid tree except that some indices are negative
